@@ -98,6 +98,9 @@ func (f LinForm) add(g LinForm, sign int64) LinForm {
 	return n
 }
 
+// Sub returns f - g.
+func (f LinForm) Sub(g LinForm) LinForm { return f.add(g, -1) }
+
 // SameVars reports whether f and g have the same coefficients (constants may differ).
 func (f LinForm) SameVars(g LinForm) bool {
 	if len(f.Coef) != len(g.Coef) {
@@ -155,6 +158,20 @@ func (a *Analysis) linOf(s *state, t term) (LinForm, bool) {
 type cmp struct {
 	op   token.Token
 	x, y term
+}
+
+// sliceNil reports whether the slice value v is, on this path, known to be nil (the nil
+// constant) or known not to be (the result of make); bconst doubles as the store, keyed by the
+// slice value (true = nil).
+func sliceNil(s *state, v ssa.Value) (isNil, known bool) {
+	if c, isC := v.(*ssa.Const); isC {
+		return c.IsNil(), c.IsNil()
+	}
+	if _, isSlice := v.Type().Underlying().(*types.Slice); !isSlice {
+		return false, false
+	}
+	b, ok := s.bconst[v]
+	return b, ok
 }
 
 func (s *state) clone() *state {
@@ -653,6 +670,13 @@ func (a *Analysis) applyPhis(s *state, b, pred *ssa.BasicBlock) {
 			if l, ok := s.slen[e]; ok {
 				as = append(as, asg{phi: ph, sl: l, isSl: true})
 			}
+			if s.bconst != nil {
+				isNil, known := sliceNil(s, e)
+				delete(s.bconst, ph)
+				if known {
+					s.bconst[ph] = isNil
+				}
+			}
 		}
 	}
 	// materialise: each phi gets its own variable equal to the incoming term (evaluated before any update)
@@ -812,6 +836,13 @@ func (a *Analysis) execFrom(fn *ssa.Function, loops []*cfgutil.Loop, b *ssa.Basi
 						a.copyInto(ns, x, a.termOf(ns, o.ret))
 					}
 					if o.ret != nil {
+						if _, isSlice := x.Type().Underlying().(*types.Slice); isSlice && ns.bconst != nil {
+							isNil, known := sliceNil(ns, o.ret)
+							delete(ns.bconst, x)
+							if known {
+								ns.bconst[x] = isNil
+							}
+						}
 						if bt, isB := x.Type().Underlying().(*types.Basic); isB && bt.Kind() == types.Bool {
 							delete(ns.bconst, x)
 							delete(ns.conds, x)
@@ -1113,6 +1144,17 @@ func (a *Analysis) transfer(fn *ssa.Function, st *state, ins ssa.Instruction) {
 		}
 	case *ssa.BinOp:
 		if !isInt(x.X.Type()) {
+			// slice == nil / slice != nil where the slice is, on this path, the nil constant or
+			// the result of make (a buffer helper that returns nil for an empty range)
+			if x.Op == token.EQL || x.Op == token.NEQ {
+				for _, pr := range [][2]ssa.Value{{x.X, x.Y}, {x.Y, x.X}} {
+					if c, isC := pr[1].(*ssa.Const); isC && c.IsNil() {
+						if isNil, known := sliceNil(st, pr[0]); known && st.bconst != nil {
+							st.bconst[x] = isNil == (x.Op == token.EQL)
+						}
+					}
+				}
+			}
 			return
 		}
 		tx, ty := a.termOf(st, x.X), a.termOf(st, x.Y)
@@ -1192,6 +1234,9 @@ func (a *Analysis) transfer(fn *ssa.Function, st *state, ins ssa.Instruction) {
 			fmt.Sprintf("the length passed to make can be negative or huge (abstract value %s): makeslice panics", r))
 		if tl.ok {
 			st.slen[x] = tl
+		}
+		if st.bconst != nil {
+			st.bconst[x] = false // make never returns nil
 		}
 	case *ssa.Slice:
 		// result[:k] / arr[:]
